@@ -49,6 +49,11 @@ FOREIGN_POOL = [
     "/**\n * CGlue-looking comment for trait Foo.\n */\ntypedef struct FooVtbl_Plain {\n    void (*run)(void);\n} FooVtbl_Plain;\n",
     "typedef struct Context {\n    int32_t id;\n} Context;\n",
     "/**\n * Doc comment of a user struct.\n */\ntypedef struct Settings {\n    uint32_t flags;\n    const char *name;\n} Settings;\n",
+    # opaque (body-less) user types — what cbindgen emits for a type it cannot see into — whose names resemble CGlue patterns
+    "typedef struct AudioRetTmp_Buffer AudioRetTmp_Buffer;\n",
+    "typedef struct MixerVtbl_Opaque MixerVtbl_Opaque;\n",
+    "typedef struct TraitObjLike_Box TraitObjLike_Box;\n",
+    "/**\n * An opaque user handle.\n */\ntypedef struct SessionContainer SessionContainer;\n",
 ]
 FOREIGN_CTX = "/**\n * A user type whose name ends like a context-generic struct.\n */\ntypedef struct Widget_Context {\n    int32_t depth;\n} Widget_Context;\n"
 FOREIGN_FNS = ["int32_t user_drop(struct Pair *p);\n", "void ctx_arc_clone_all(void);\n", "uint32_t settings_flags(const struct Settings *s);\n"]
